@@ -18,9 +18,9 @@ package vsched
 import (
 	"fmt"
 	"os"
+	"reflect"
 	"runtime"
 	"runtime/debug"
-	"reflect"
 	"sort"
 	"strconv"
 	"strings"
@@ -96,21 +96,21 @@ type thread struct {
 
 // PointRec describes one recorded choice point of an execution.
 type PointRec struct {
-	N         int  // number of alternatives
-	Chosen    int  // alternative taken
-	Costly    bool // a non-default choice here costs one deviation (preemption / env answer)
-	Env       bool // environment choice (not a thread choice)
+	N         int    // number of alternatives
+	Chosen    int    // alternative taken
+	Costly    bool   // a non-default choice here costs one deviation (preemption / env answer)
+	Env       bool   // environment choice (not a thread choice)
 	EnabledFP uint64 // trace fingerprint of the state in which the choice is made
 	Running   uint64 // identity of the thread that was running (part of the pruning key)
 }
 
 // Options configure one execution.
 type Options struct {
-	Horizon      int  // max scheduling steps before verdict "horizon" (0 = 200000)
-	AccessPoints bool // hooked accesses to shared state are scheduling points
-	Monitor      bool // happens-before race monitor on hooked accesses
-	MapChoices   bool // map iteration order is an environment choice (else always ascending)
-	Trace        bool // keep a textual step trace
+	Horizon      int            // max scheduling steps before verdict "horizon" (0 = 200000)
+	AccessPoints bool           // hooked accesses to shared state are scheduling points
+	Monitor      bool           // happens-before race monitor on hooked accesses
+	MapChoices   bool           // map iteration order is an environment choice (else always ascending)
+	Trace        bool           // keep a textual step trace
 	Sites        map[int32]bool // with AccessPoints: the access sites that are scheduling points
 	MapSites     map[int32]bool // with MapChoices: only these range-over-map sites are choice points (nil = all)
 }
@@ -124,32 +124,32 @@ type Race struct {
 
 // Exec is one controlled execution.
 type Exec struct {
-	opts     Options
-	threads  []*thread
-	running  *thread
-	prefix   []int32
-	pos      int
-	Points   []PointRec
-	Choices  []int32
-	steps    int
-	Verdict  string // "" (completed) | deadlock | horizon | crash
-	Crash    string
-	ctl      chan ctlMsg
-	live     sync.WaitGroup
-	mus      map[uint32]*muState
-	wgs      map[uint32]*wgState
-	nextObj  uint32
-	epoch    uint32
-	aborting bool
-	Races    map[Race]bool
-	locs     map[unsafe.Pointer]*locState
-	obsDC    []uint32
-	obsSeq   uint64
-	Sites    map[int32]bool // access sites that are scheduling points in this execution
-	TraceLog []string
-	hb       map[string][]uint32 // harness HB keys
-	det      bool                // deterministic tail: no further choice points are recorded
-	fp       uint64              // running fingerprint of the Mazurkiewicz trace (xor of event hashes)
+	opts       Options
+	threads    []*thread
+	running    *thread
+	prefix     []int32
+	pos        int
+	Points     []PointRec
+	Choices    []int32
+	steps      int
+	Verdict    string // "" (completed) | deadlock | horizon | crash
+	Crash      string
+	ctl        chan ctlMsg
+	live       sync.WaitGroup
+	mus        map[uint32]*muState
+	wgs        map[uint32]*wgState
+	nextObj    uint32
+	epoch      uint32
+	aborting   bool
+	Races      map[Race]bool
+	locs       map[unsafe.Pointer]*locState
+	obsDC      []uint32
+	obsSeq     uint64
+	Sites      map[int32]bool // access sites that are scheduling points in this execution
+	TraceLog   []string
+	hb         map[string][]uint32 // harness HB keys
+	det        bool                // deterministic tail: no further choice points are recorded
+	fp         uint64              // running fingerprint of the Mazurkiewicz trace (xor of event hashes)
 	divergence string
 }
 
